@@ -9,6 +9,7 @@ import (
 	"regexp"
 	"runtime"
 	"runtime/debug"
+	"sort"
 	"strings"
 	"sync"
 	"sync/atomic"
@@ -39,14 +40,46 @@ import (
 //	S  every seed x adversarial stores: extreme uniform balances, failing
 //	   GetBalances / GetAccount, unknown accounts, ill-typed metadata
 //
+//	H  HISTORIES: production does not build a runtime per execution. With the numscript
+//	   cache on (NSCacheConfiguration.MaxCount != 0, the default) CachedParser hands the
+//	   SAME NumscriptRuntime to every request carrying the same script text, so whatever an
+//	   execution leaves behind in the runtime (a recycled machine, a memoised resource, ...)
+//	   is an input of the next one. For every program of G, every compiled mutant of M, every
+//	   compiled string of B and every seed (with its seed/V/S inputs) the inputs of the single-run space are run
+//	   again as ONE ordered history on the runtime obtained the production way
+//	   (NewCachedNumscriptParser(NewDefaultNumscriptParser()).Parse(text) before each
+//	   execution: one miss, then hits):
+//	     chain      every input once, in enumeration order (neighbouring ok/ok, fail/fail,
+//	                ok/fail, fail/ok pairs);
+//	     fail x ok  for every input a whose fresh run returns an error and every input b
+//	                whose fresh run succeeds: a b a — i.e. EVERY ordered (failing,
+//	                succeeding) and (succeeding, failing) pair of inputs runs back to back.
+//	                G programs get it in two passes. First, with their single-run cases,
+//	                the REDUCED product: the first failing input of every FAIL POINT (error
+//	                stage:kind, instruction pointer and stack depth at the error: the VM
+//	                has no jump, a failing run is a prefix of the one instruction walk) x
+//	                every succeeding input, plus every failing input x the first
+//	                succeeding input, both orders. Then, after all the other groups (a
+//	                budget cut loses pairs, not groups), the rest of the FULL product for
+//	                the programs with at most histCap inputs (quick 36, thorough 72); the
+//	                programs with three accounts in balance-relevant position (up to 432
+//	                inputs, 46 000 pairs each) keep the reduced product.
+//	   A history runs sequentially in one goroutine; nothing pins it to a P (Go has no API
+//	   for that), but a is re-executed before each of its b's, so every failing input is
+//	   followed by a succeeding one as many times as there are succeeding inputs.
+//
 // Every input goes through compiler.Compile and, when it compiles, through
 // (1) NewMachine / SetVarsFromJSON / ResolveResources / ResolveBalances / Execute
 // / GetTxMetaJSON / GetAccountsMetaJSON directly and (2) the real
-// MachineNumscriptRuntimeAdapter.Execute.
+// MachineNumscriptRuntimeAdapter.Execute on a fresh adapter, and (3, H) the cached
+// runtime after the executions that precede it in the history.
 //
 // Oracle: no panic (recovered, reported with the input); the adapter returns a
 // nil result whenever it returns an error (and a result when it does not); no
-// case runs longer than 60 s (watchdog).
+// case runs longer than 60 s (watchdog); H: an execution on the cached runtime returns
+// exactly what the same input returns on a fresh one, whatever ran before it (no panic,
+// same postings and metadata, same error class) — "any program with any variables and
+// balances either succeeds or returns an error" has no clause about earlier requests.
 func init() { reg.Register("C27", c27) }
 
 var c27Seeds = []string{
@@ -171,6 +204,147 @@ type c27Stats struct {
 	errKinds                                      counterSet
 	distinct                                      sync.Map
 	distinctN                                     atomic.Int64
+
+	// H: histories on the cached runtime
+	histPrograms, histSteps, histCacheHits, histCacheMisses atomic.Int64
+	histFailThenOK, histOKThenFail, histOKThenOK            atomic.Int64 // adjacent pairs, by the fresh outcome of their two inputs
+	histFailThenFail, histSameInputTwice                    atomic.Int64
+	histMidStmtFailThenOK                                   atomic.Int64 // first of the pair failed with values left on the VM stack
+	histDiagnosed, histFull, histReduced, histAroundFirstOK atomic.Int64
+	histByGroup                                             counterSet // steps
+	histFirstClass                                          counterSet // fail x ok pairs by the error class of the failing input
+}
+
+// c27HistInput is one input of a program together with what a FRESH runtime answers on it
+// (the direct machine run of the single-run space; the fresh adapter is asked again before
+// any divergence is reported).
+type c27HistInput struct {
+	vars      map[string]string
+	mk        func() *fakeStore
+	desc      map[string]any
+	class     string // "ok", or stage:kind of the returned error
+	out       string // canonical postings and metadata ("" when it failed)
+	stackLeft int    // values the failing fresh run left on the VM stack (error in the middle of a statement)
+	failP     int    // instruction pointer at which the failing fresh run stopped (stage execute)
+}
+
+// failPoint: where and how a failing input dies. The VM has no jump: every run of a program
+// walks the same instructions, a failing one stops at one of them.
+func (in *c27HistInput) failPoint() string {
+	return fmt.Sprintf("%s@%d/%d", in.class, in.failP, in.stackLeft)
+}
+
+type c27History struct {
+	group, text string
+	in          []c27HistInput
+}
+
+// the parts of a history
+const (
+	c27HistChain   = 1 << iota // every input once, in enumeration order
+	c27HistReduced             // {first failing input of every fail point} x {succeeding inputs}, {failing inputs} x {first succeeding input}
+	c27HistFull                // {failing inputs} x {succeeding inputs}
+)
+
+func c27MetaString(tx map[string]string, acc map[string]map[string]string) string {
+	var b strings.Builder
+	keys := make([]string, 0, len(tx))
+	for k := range tx {
+		keys = append(keys, k)
+	}
+	sort.Strings(keys)
+	b.WriteString("|tx:")
+	for _, k := range keys {
+		fmt.Fprintf(&b, "%q=%q,", k, tx[k])
+	}
+	accs := make([]string, 0, len(acc))
+	for a := range acc {
+		accs = append(accs, a)
+	}
+	sort.Strings(accs)
+	b.WriteString("|acc:")
+	for _, a := range accs {
+		keys = keys[:0]
+		for k := range acc[a] {
+			keys = append(keys, k)
+		}
+		sort.Strings(keys)
+		fmt.Fprintf(&b, "%q{", a)
+		for _, k := range keys {
+			fmt.Fprintf(&b, "%q=%q,", k, acc[a][k])
+		}
+		b.WriteString("}")
+	}
+	return b.String()
+}
+
+// c27MachineOutcome / c27AdapterOutcome render the two views of a run in the same form:
+// class = "ok" | stage:kind, out = postings and metadata.
+func c27MachineOutcome(res *machineRun) (class, out string) {
+	if res.Err != nil {
+		return res.Stage + ":" + errKind(res.Err), ""
+	}
+	return "ok", strings.Join(postingsString(res.Postings), ";") + c27MetaString(res.TxMeta, res.AccMeta)
+}
+
+func c27AdapterOutcome(res *ledgercontroller.NumscriptExecutionResult, err error) (class, out string) {
+	if err != nil {
+		stage := "execute"
+		switch msg := err.Error(); {
+		case strings.HasPrefix(msg, "failed to set vars from JSON"):
+			stage = "vars"
+		case strings.HasPrefix(msg, "failed to resolve resources"):
+			stage = "resources"
+		case strings.HasPrefix(msg, "failed to resolve balances"):
+			stage = "balances"
+		}
+		return stage + ":" + errKind(err), ""
+	}
+	if res == nil {
+		return "nil-result-without-error", ""
+	}
+	ps := make([]string, len(res.Postings))
+	for i, p := range res.Postings {
+		amt := "<nil>"
+		if p.Amount != nil {
+			amt = p.Amount.String()
+		}
+		ps[i] = fmt.Sprintf("%s->%s %s %s", p.Source, p.Destination, amt, p.Asset)
+	}
+	acc := map[string]map[string]string{}
+	for a, md := range res.AccountMetadata {
+		acc[a] = md
+	}
+	return "ok", strings.Join(ps, ";") + c27MetaString(res.Metadata, acc)
+}
+
+// c27StoreSpec: a store of groups S / seed as plain data (replayable).
+type c27StoreSpec struct {
+	Uniform      string                       `json:"uniform_balance,omitempty"`
+	BalErr       bool                         `json:"get_balances_fails,omitempty"`
+	AccErr       bool                         `json:"get_account_fails,omitempty"`
+	NoAccounts   bool                         `json:"no_account_exists,omitempty"`
+	DropBalances bool                         `json:"empty_balances_answer,omitempty"`
+	Meta         map[string]map[string]string `json:"metadata,omitempty"` // nil: storeMeta()
+}
+
+func (sp c27StoreSpec) mk() *fakeStore {
+	u, _ := new(big.Int).SetString(sp.Uniform, 10)
+	s := newUniformStore(u)
+	if sp.BalErr {
+		s.balErr = errors.New("boom")
+	}
+	if sp.AccErr {
+		s.accErr = errors.New("boom")
+	}
+	if sp.NoAccounts {
+		s.allAccountsExist = false
+	}
+	if sp.Meta != nil {
+		s.meta = sp.Meta
+	}
+	s.dropBalances = sp.DropBalances
+	return s
 }
 
 type c27Slot struct {
@@ -182,6 +356,11 @@ type c27Slot struct {
 	cacheText string
 	cacheProg *program.Program
 	cacheErr  error
+	// H: the worker's numscript cache (production: one CachedParser per process, MaxCount
+	// 1024 by default; one per worker here so that no other worker evicts the runtime in
+	// the middle of a history) and the history being collected, if any
+	parser *ledgercontroller.CachedParser
+	hist   *c27History
 }
 
 func c27() int {
@@ -192,14 +371,14 @@ func c27() int {
 	nw := runtime.NumCPU()
 	slots := make([]*c27Slot, nw)
 	for i := range slots {
-		slots[i] = &c27Slot{}
+		slots[i] = &c27Slot{parser: ledgercontroller.NewCachedNumscriptParser(ledgercontroller.NewDefaultNumscriptParser(), ledgercontroller.CacheConfiguration{MaxCount: 1024})}
 	}
 	var exhaustive atomic.Bool
 	exhaustive.Store(true)
 
 	type task func(slot *c27Slot)
 	tasks := make(chan task, 256)
-	var wg sync.WaitGroup
+	var wg, pending sync.WaitGroup // pending: tasks submitted and not finished yet
 	for w := 0; w < nw; w++ {
 		wg.Add(1)
 		go func(slot *c27Slot) {
@@ -207,9 +386,10 @@ func c27() int {
 			for t := range tasks {
 				if r.Expired() {
 					exhaustive.Store(false)
-					continue
+				} else {
+					t(slot)
 				}
-				t(slot)
+				pending.Done()
 			}
 		}(slots[w])
 	}
@@ -295,7 +475,12 @@ func c27() int {
 			r.Violation("C27:panic:"+strings.TrimPrefix(res.Stage, "panic:")+":"+res.PanicAt,
 				fmt.Sprintf("machine panicked at stage %s in %s: %v | program %q vars %v", res.Stage, res.PanicAt, res.Panic, text, vars), rep())
 			return // the adapter runs the same code
-		} else if res.Err != nil {
+		}
+		if slot.hist != nil && slot.hist.text == text && !strings.Contains(text, "print") {
+			class, out := c27MachineOutcome(&res)
+			slot.hist.in = append(slot.hist.in, c27HistInput{vars: vars, mk: mkStore, desc: desc, class: class, out: out, stackLeft: res.StackLeft, failP: res.FailP})
+		}
+		if res.Err != nil {
 			st.ranErr.Add(1)
 			st.errKinds.Add(res.Stage + ":" + errKind(res.Err))
 		} else {
@@ -344,6 +529,290 @@ func c27() int {
 		}
 	}
 
+	// ---- H: one history = the inputs of one program, in order, on ONE cached runtime ------
+	type histOutcome struct {
+		class, out string
+		panic      any
+		site       string
+		both       bool // error AND result
+		rt         ledgercontroller.NumscriptRuntime
+		parseErr   error
+	}
+	// one request as createTransaction serves it: parser.Parse(text), then Execute
+	histExec := func(parser ledgercontroller.NumscriptParser, text string, in *c27HistInput) (o histOutcome) {
+		defer func() {
+			if p := recover(); p != nil {
+				o.panic, o.site = p, panicSite(debug.Stack(), p)
+				o.class, o.out = "panic", ""
+			}
+		}()
+		o.rt, o.parseErr = parser.Parse(text)
+		if o.parseErr != nil {
+			o.class = "parse-error"
+			return
+		}
+		ares, aerr := o.rt.Execute(context.Background(), in.mk(), in.vars)
+		o.both = ares != nil && aerr != nil
+		o.class, o.out = c27AdapterOutcome(ares, aerr)
+		return
+	}
+	inputObj := func(in *c27HistInput) map[string]any {
+		o := map[string]any{"vars": in.vars, "fresh_runtime_answer": in.class}
+		if in.out != "" {
+			o["fresh_runtime_result"] = in.out
+		}
+		if in.stackLeft > 0 {
+			o["values_left_on_vm_stack_by_the_fresh_failing_run"] = in.stackLeft
+		}
+		for k, v := range in.desc {
+			o[k] = v
+		}
+		return o
+	}
+	runHistory := func(slot *c27Slot, h *c27History, parts int) {
+		n := len(h.in)
+		if n == 0 {
+			return
+		}
+		slot.mu.Lock()
+		slot.start, slot.what = time.Now(), h.text
+		slot.mu.Unlock()
+		defer func() {
+			slot.mu.Lock()
+			slot.start = time.Time{}
+			slot.mu.Unlock()
+		}()
+		if parts&c27HistChain != 0 {
+			st.histPrograms.Add(1)
+		}
+		var rt0 ledgercontroller.NumscriptRuntime
+		var trail []int // the steps executed so far
+		prev := -1
+		var steps, hits, misses, failOK, okFail, okOK, failFail, same, midOK int64
+		defer func() {
+			st.histSteps.Add(steps)
+			st.histCacheHits.Add(hits)
+			st.histCacheMisses.Add(misses)
+			st.histFailThenOK.Add(failOK)
+			st.histOKThenFail.Add(okFail)
+			st.histOKThenOK.Add(okOK)
+			st.histFailThenFail.Add(failFail)
+			st.histSameInputTwice.Add(same)
+			st.histMidStmtFailThenOK.Add(midOK)
+			st.histByGroup.AddN(h.group, steps)
+		}()
+		step := func(i int) bool {
+			in := &h.in[i]
+			o := histExec(slot.parser, h.text, in)
+			steps++
+			trail = append(trail, i)
+			if o.rt != nil {
+				switch {
+				case rt0 == nil:
+					rt0 = o.rt
+				case o.rt == rt0:
+					hits++
+				default:
+					misses++
+				}
+			}
+			if prev >= 0 {
+				pOK, cOK := h.in[prev].class == "ok", in.class == "ok"
+				switch {
+				case prev == i:
+					same++
+				case !pOK && cOK:
+					failOK++
+					if h.in[prev].stackLeft > 0 {
+						midOK++
+					}
+				case pOK && !cOK:
+					okFail++
+				case pOK && cOK:
+					okOK++
+				default:
+					failFail++
+				}
+			}
+			defer func() { prev = i }()
+			if o.panic == nil && o.parseErr == nil && !o.both && o.class == in.class && o.out == in.out {
+				return true
+			}
+			// ---- divergence: what does a fresh runtime answer, right now, on this input? ----
+			fresh := histExec(ledgercontroller.NewDefaultNumscriptParser(), h.text, in)
+			rep := map[string]any{
+				"group": "H/" + h.group, "program": h.text, "program_bytes_hex": fmt.Sprintf("%x", h.text),
+				"step": len(trail) - 1, "input": inputObj(in),
+				"cached_runtime_answer": o.class, "cached_runtime_result": o.out,
+				"fresh_adapter_answer": fresh.class, "fresh_adapter_result": fresh.out,
+			}
+			if prev >= 0 {
+				rep["previous_input"] = inputObj(&h.in[prev])
+			}
+			// replayable history: the pair alone when it reproduces on a new cache, else the
+			// tail of what ran
+			tail := trail
+			if st.histDiagnosed.Add(1) <= 8 && prev >= 0 {
+				reproduced := 0
+				const tries = 5
+				for t := 0; t < tries; t++ {
+					np := ledgercontroller.NewCachedNumscriptParser(ledgercontroller.NewDefaultNumscriptParser(), ledgercontroller.CacheConfiguration{MaxCount: 1024})
+					histExec(np, h.text, &h.in[prev])
+					o2 := histExec(np, h.text, in)
+					if o2.class == o.class && o2.out == o.out {
+						reproduced++
+					}
+				}
+				rep["pair_alone_on_a_new_cache_reproduces"] = fmt.Sprintf("%d/%d", reproduced, tries)
+				if reproduced > 0 {
+					tail = []int{prev, i}
+				}
+			}
+			if len(tail) > 32 {
+				rep["history_truncated_to_last"] = 32
+				tail = tail[len(tail)-32:]
+			}
+			var hl []any
+			for _, j := range tail {
+				hl = append(hl, inputObj(&h.in[j]))
+			}
+			rep["history"] = hl
+			before := "it is the first execution of the history"
+			if prev >= 0 {
+				before = fmt.Sprintf("the execution before it (vars %v, %v) answered %s on a fresh runtime", h.in[prev].vars, h.in[prev].desc, h.in[prev].class)
+			}
+			switch {
+			case o.parseErr != nil:
+				r.Violation("C27:history:cached-parser-rejects-compiled-program", fmt.Sprintf("CachedParser.Parse returned %q for a program compiler.Compile accepts | program %q", shortErr(o.parseErr), h.text), rep)
+			case fresh.panic == nil && fresh.class == o.class && fresh.out == o.out && !o.both:
+				// not an effect of the history: the adapter and the machine disagree on a fresh run
+				r.Violation("C27:adapter-and-machine-disagree", fmt.Sprintf("same input: direct machine %s %s, fresh adapter %s %s | program %q vars %v", in.class, in.out, fresh.class, fresh.out, h.text, in.vars), rep)
+			case o.panic != nil:
+				r.Violation("C27:panic:history:"+o.site, fmt.Sprintf("execution %d of a history on the cached runtime (CachedParser.Parse + Execute) panicked in %s: %v; the same input on a fresh runtime answers %s %s; %s | program %q vars %v %v", len(trail)-1, o.site, o.panic, in.class, in.out, before, h.text, in.vars, in.desc), rep)
+			case o.both:
+				r.Violation("C27:history:result-returned-with-error", fmt.Sprintf("execution %d of a history on the cached runtime returned an error (%s) together with a result; %s | program %q vars %v", len(trail)-1, o.class, before, h.text, in.vars), rep)
+			default:
+				kind := "result"
+				switch {
+				case in.class == "ok" && o.class != "ok":
+					kind = "ok-became-error"
+				case in.class != "ok" && o.class == "ok":
+					kind = "error-became-ok"
+				case in.class != o.class:
+					kind = "error-class"
+				}
+				r.Violation("C27:history:differs-from-fresh-runtime:"+kind, fmt.Sprintf("execution %d of a history on the cached runtime answered %s %s; the same input on a fresh runtime answers %s %s; %s | program %q vars %v %v", len(trail)-1, o.class, o.out, in.class, in.out, before, h.text, in.vars, in.desc), rep)
+			}
+			return false // the runtime is in an unknown state: the rest of this history proves nothing
+		}
+		var fails, oks []int
+		for i := range h.in {
+			if h.in[i].class == "ok" {
+				oks = append(oks, i)
+			} else {
+				fails = append(fails, i)
+			}
+		}
+		if parts&c27HistChain != 0 {
+			// chain: every input once, in enumeration order
+			for i := 0; i < n; i++ {
+				if !step(i) {
+					return
+				}
+			}
+			if n == 1 {
+				step(0)
+				return
+			}
+		}
+		if len(oks) == 0 || len(fails) == 0 {
+			return
+		}
+		// the first failing input of every fail point, in enumeration order
+		var reps, others []int
+		seen := map[string]bool{}
+		for _, a := range fails {
+			if fp := h.in[a].failPoint(); !seen[fp] {
+				seen[fp] = true
+				reps = append(reps, a)
+			} else {
+				others = append(others, a)
+			}
+		}
+		firsts, seconds := fails, oks
+		switch {
+		case parts&c27HistFull != 0 && parts&c27HistChain == 0:
+			// second pass over a program whose first pass ran the reduced product: the pairs
+			// left are {failing inputs that are not the first of their fail point} x
+			// {succeeding inputs but the first}
+			firsts, seconds = others, oks[1:]
+			st.histFull.Add(1)
+		case parts&c27HistFull != 0:
+			// fail x ok: a b a for every failing a, every succeeding b
+			st.histFull.Add(1)
+		case parts&c27HistReduced != 0:
+			// one failing input per fail point x every succeeding input ...
+			firsts = reps
+			st.histReduced.Add(1)
+		default:
+			return
+		}
+		for _, a := range firsts {
+			st.histFirstClass.AddN(h.in[a].class, int64(len(seconds)))
+			for _, b := range seconds {
+				if !step(a) || !step(b) {
+					return
+				}
+			}
+			if len(seconds) > 0 && !step(a) {
+				return
+			}
+		}
+		if parts&c27HistFull == 0 {
+			// ... and every failing input around the first succeeding one: b0 a1 b0 a2 b0 ...
+			b0 := oks[0]
+			st.histAroundFirstOK.Add(int64(len(fails)))
+			for _, a := range fails {
+				if !step(b0) || !step(a) {
+					return
+				}
+			}
+			step(b0)
+		}
+	}
+	// withHistory collects the compiled inputs of text that f feeds to runCase, then runs
+	// them as a history. A G program gets the chain and the reduced product at once; the full
+	// product of those with at most histCap inputs is deferred to a second pass (gp != nil:
+	// the programs are regenerated then), after every group of the single-run space, so that a
+	// budget cut loses pairs of the product, not groups.
+	histCap := ev.Pick(r, 36, 72)
+	var deferredMu sync.Mutex
+	var deferred []*gen.Program
+	withHistory := func(slot *c27Slot, group, text string, gp *gen.Program, f func()) {
+		slot.hist = &c27History{group: group, text: text}
+		f()
+		h := slot.hist
+		slot.hist = nil
+		if gp == nil {
+			runHistory(slot, h, c27HistChain|c27HistFull)
+			return
+		}
+		runHistory(slot, h, c27HistChain|c27HistReduced)
+		if n := len(h.in); n > 1 && n <= histCap {
+			nf := 0
+			for i := range h.in {
+				if h.in[i].class != "ok" {
+					nf++
+				}
+			}
+			if nf > 0 && nf < n {
+				deferredMu.Lock()
+				deferred = append(deferred, gp)
+				deferredMu.Unlock()
+			}
+		}
+	}
+
 	submit := func(t task) bool {
 		select {
 		case w := <-hang:
@@ -355,6 +824,7 @@ func c27() int {
 			exhaustive.Store(false)
 			return false
 		}
+		pending.Add(1)
 		tasks <- t
 		return true
 	}
@@ -377,12 +847,14 @@ func c27() int {
 			return submit(func(slot *c27Slot) {
 				text := p.Text()
 				rejected := false
-				forEachEnv(p, func(env *gen.Env) {
-					if rejected {
-						return
-					}
-					runCase(slot, "G", text, env.Vars, envStore(env), map[string]any{"balances": balString(env.Bal), "metadata": env.Meta})
-					rejected = slot.cacheText == text && slot.cacheErr != nil // does not compile: one case
+				withHistory(slot, "G", text, p, func() {
+					forEachEnv(p, func(env *gen.Env) {
+						if rejected {
+							return
+						}
+						runCase(slot, "G", text, env.Vars, envStore(env), map[string]any{"balances": balString(env.Bal), "metadata": env.Meta})
+						rejected = slot.cacheText == text && slot.cacheErr != nil // does not compile: one case
+					})
 				})
 			})
 		})
@@ -412,25 +884,17 @@ func c27() int {
 			si, i := si, i
 			if !submit(func(slot *c27Slot) {
 				for mi, text := range mutants {
-					for _, u := range uniforms {
-						u := u
-						runCase(slot, "M", text, nil, func() *fakeStore { return newUniformStore(u) }, map[string]any{"seed": si, "token": i, "mutant": mi, "uniform_balance": u.String()})
-					}
+					withHistory(slot, "M", text, nil, func() {
+						for _, u := range uniforms {
+							u := u
+							runCase(slot, "M", text, nil, func() *fakeStore { return newUniformStore(u) }, map[string]any{"seed": si, "token": i, "mutant": mi, "uniform_balance": u.String()})
+						}
+					})
 				}
 			}) {
 				okM = false
 			}
 		}
-	}
-	// the unmutated seeds themselves
-	for si, seed := range c27Seeds {
-		si, seed := si, seed
-		submit(func(slot *c27Slot) {
-			for _, u := range uniforms {
-				u := u
-				runCase(slot, "seed", seed, nil, func() *fakeStore { return newUniformStore(u) }, map[string]any{"seed": si, "uniform_balance": u.String()})
-			}
-		})
 	}
 	if okM {
 		groupsDone = append(groupsDone, "M")
@@ -461,7 +925,9 @@ func c27() int {
 				batch = nil
 				if !submit(func(slot *c27Slot) {
 					for _, text := range bb {
-						runCase(slot, "B", text, nil, func() *fakeStore { return newUniformStore(big.NewInt(5)) }, nil)
+						withHistory(slot, "B", text, nil, func() {
+							runCase(slot, "B", text, nil, func() *fakeStore { return newUniformStore(big.NewInt(5)) }, map[string]any{"uniform_balance": "5"})
+						})
 					}
 				}) {
 					okB = false
@@ -476,7 +942,82 @@ func c27() int {
 		groupsDone = append(groupsDone, "B")
 	}
 
-	// ---- V / S: adversarial variables and stores on the seeds -------------------------
+	// ---- seed / V / S: the unmutated seeds, adversarial variables and stores on them; all
+	// the inputs of a seed then form its history ------------------------------------------
+	seedCases := func(slot *c27Slot, si int, seed string, prog *program.Program) {
+		for _, u := range uniforms {
+			sp := c27StoreSpec{Uniform: u.String()}
+			runCase(slot, "seed", seed, nil, sp.mk, map[string]any{"seed": si, "uniform_balance": u.String()})
+		}
+		names, defaults := declaredVars(prog)
+		cp := func() map[string]string {
+			m := map[string]string{}
+			for k, v := range defaults {
+				m[k] = v
+			}
+			return m
+		}
+		goodSpec := c27StoreSpec{Uniform: "5"}
+		good := goodSpec.mk
+		for _, n := range names {
+			for _, adv := range c27AdvStrings {
+				m := cp()
+				m[n] = adv
+				runCase(slot, "V", seed, m, good, map[string]any{"seed": si, "var": n, "value": adv, "uniform_balance": "5"})
+			}
+			m := cp()
+			delete(m, n)
+			runCase(slot, "V", seed, m, good, map[string]any{"seed": si, "missing_var": n, "uniform_balance": "5"})
+			for _, js := range c27AdvJSON {
+				doc := map[string]json.RawMessage{}
+				for k, v := range defaults {
+					b, _ := json.Marshal(v)
+					doc[k] = b
+				}
+				doc[n] = json.RawMessage(js)
+				raw, _ := json.Marshal(map[string]any{"plain": seed, "vars": doc})
+				var vars map[string]string
+				func() {
+					defer func() {
+						if p := recover(); p != nil {
+							r.Violation("C27:panic:vars-json:"+panicSite(debug.Stack(), p), fmt.Sprintf("decoding script vars panicked: %v | json %s", p, raw), map[string]any{"json": string(raw)})
+						}
+					}()
+					var s1 vm.ScriptV1
+					if err := json.Unmarshal(raw, &s1); err != nil {
+						return
+					}
+					vars = s1.ToCore().Vars
+				}()
+				if vars != nil {
+					runCase(slot, "V", seed, vars, good, map[string]any{"seed": si, "var": n, "json_value": js, "uniform_balance": "5"})
+				}
+			}
+		}
+		m := cp()
+		m["extra"] = "x"
+		runCase(slot, "V", seed, m, good, map[string]any{"seed": si, "extra_var": "extra", "uniform_balance": "5"})
+		runCase(slot, "V", seed, map[string]string{}, good, map[string]any{"seed": si, "vars": "none", "uniform_balance": "5"})
+		// stores
+		two64 := new(big.Int).Lsh(big.NewInt(1), 64)
+		ten30 := new(big.Int).Exp(big.NewInt(10), big.NewInt(30), nil)
+		for _, u := range []*big.Int{new(big.Int).Neg(ten30), new(big.Int).Neg(two64), big.NewInt(-1), big.NewInt(1), two64, ten30} {
+			sp := c27StoreSpec{Uniform: u.String()}
+			runCase(slot, "S", seed, cp(), sp.mk, map[string]any{"seed": si, "uniform_balance": u.String()})
+		}
+		storeCase := func(what string, sp c27StoreSpec) {
+			sp.Uniform = "5"
+			runCase(slot, "S", seed, cp(), sp.mk, map[string]any{"seed": si, "store": what, "store_spec": sp})
+		}
+		storeCase("GetBalances fails", c27StoreSpec{BalErr: true})
+		storeCase("GetAccount fails", c27StoreSpec{AccErr: true})
+		storeCase("no account exists", c27StoreSpec{NoAccounts: true, Meta: map[string]map[string]string{}})
+		storeCase("metadata keys missing", c27StoreSpec{Meta: map[string]map[string]string{"m": {}}})
+		for _, bad := range []string{"", "x y", "-1", "COIN -1", "COIN", "3/2", "world", "\x00"} {
+			storeCase("metadata values = "+fmt.Sprintf("%q", bad), c27StoreSpec{Meta: map[string]map[string]string{"m": {"acc": bad, "por": bad, "mon": bad}}})
+		}
+		storeCase("GetBalances returns an empty map", c27StoreSpec{DropBalances: true})
+	}
 	okV := true
 	for si, seed := range c27Seeds {
 		si, seed := si, seed
@@ -486,85 +1027,60 @@ func c27() int {
 				r.EngineError(fmt.Sprintf("seed %d does not compile: %v", si, err))
 				return
 			}
-			names, defaults := declaredVars(prog)
-			cp := func() map[string]string {
-				m := map[string]string{}
-				for k, v := range defaults {
-					m[k] = v
-				}
-				return m
-			}
-			good := func() *fakeStore { return newUniformStore(big.NewInt(5)) }
-			for _, n := range names {
-				for _, adv := range c27AdvStrings {
-					m := cp()
-					m[n] = adv
-					runCase(slot, "V", seed, m, good, map[string]any{"seed": si, "var": n, "value": adv})
-				}
-				m := cp()
-				delete(m, n)
-				runCase(slot, "V", seed, m, good, map[string]any{"seed": si, "missing_var": n})
-				for _, js := range c27AdvJSON {
-					doc := map[string]json.RawMessage{}
-					for k, v := range defaults {
-						b, _ := json.Marshal(v)
-						doc[k] = b
-					}
-					doc[n] = json.RawMessage(js)
-					raw, _ := json.Marshal(map[string]any{"plain": seed, "vars": doc})
-					var vars map[string]string
-					func() {
-						defer func() {
-							if p := recover(); p != nil {
-								r.Violation("C27:panic:vars-json:"+panicSite(debug.Stack(), p), fmt.Sprintf("decoding script vars panicked: %v | json %s", p, raw), map[string]any{"json": string(raw)})
-							}
-						}()
-						var s1 vm.ScriptV1
-						if err := json.Unmarshal(raw, &s1); err != nil {
-							return
-						}
-						vars = s1.ToCore().Vars
-					}()
-					if vars != nil {
-						runCase(slot, "V", seed, vars, good, map[string]any{"seed": si, "var": n, "json_value": js})
-					}
-				}
-			}
-			m := cp()
-			m["extra"] = "x"
-			runCase(slot, "V", seed, m, good, map[string]any{"seed": si, "extra_var": "extra"})
-			runCase(slot, "V", seed, map[string]string{}, good, map[string]any{"seed": si, "vars": "none"})
-			// stores
-			two64 := new(big.Int).Lsh(big.NewInt(1), 64)
-			ten30 := new(big.Int).Exp(big.NewInt(10), big.NewInt(30), nil)
-			for _, u := range []*big.Int{new(big.Int).Neg(ten30), new(big.Int).Neg(two64), big.NewInt(-1), big.NewInt(1), two64, ten30} {
-				u := u
-				runCase(slot, "S", seed, cp(), func() *fakeStore { return newUniformStore(u) }, map[string]any{"seed": si, "uniform_balance": u.String()})
-			}
-			runCase(slot, "S", seed, cp(), func() *fakeStore { s := good(); s.balErr = errors.New("boom"); return s }, map[string]any{"seed": si, "store": "GetBalances fails"})
-			runCase(slot, "S", seed, cp(), func() *fakeStore { s := good(); s.accErr = errors.New("boom"); return s }, map[string]any{"seed": si, "store": "GetAccount fails"})
-			runCase(slot, "S", seed, cp(), func() *fakeStore {
-				s := good()
-				s.allAccountsExist = false
-				s.meta = map[string]map[string]string{}
-				return s
-			}, map[string]any{"seed": si, "store": "no account exists"})
-			runCase(slot, "S", seed, cp(), func() *fakeStore { s := good(); s.meta = map[string]map[string]string{"m": {}}; return s }, map[string]any{"seed": si, "store": "metadata keys missing"})
-			for _, bad := range []string{"", "x y", "-1", "COIN -1", "COIN", "3/2", "world", "\x00"} {
-				bad := bad
-				runCase(slot, "S", seed, cp(), func() *fakeStore {
-					s := good()
-					s.meta = map[string]map[string]string{"m": {"acc": bad, "por": bad, "mon": bad}}
-					return s
-				}, map[string]any{"seed": si, "store": "metadata values = " + fmt.Sprintf("%q", bad)})
-			}
-			runCase(slot, "S", seed, cp(), func() *fakeStore { s := good(); s.dropBalances = true; return s }, map[string]any{"seed": si, "store": "GetBalances returns an empty map"})
+			withHistory(slot, "seed+V+S", seed, nil, func() { seedCases(slot, si, seed, prog) })
 		}) {
 			okV = false
 		}
 	}
 	if okV {
-		groupsDone = append(groupsDone, "V", "S")
+		groupsDone = append(groupsDone, "seed", "V", "S")
+	}
+
+	// ---- H, second pass: the full fail x ok product of the G programs with <= histCap inputs ---
+	// (every task that defers a program was submitted above; wait for them)
+	firstPassDone := func() bool {
+		ch := make(chan struct{})
+		go func() { pending.Wait(); close(ch) }()
+		select {
+		case <-ch:
+			return true
+		case w := <-hang:
+			hang <- w
+			return false
+		}
+	}()
+	okH := firstPassDone && len(groupsDone) == 6
+	if okH {
+		groupsDone = append(groupsDone, "H:chain+reduced-product")
+	}
+	deferredMu.Lock()
+	second := deferred
+	deferredMu.Unlock()
+	for _, p := range second {
+		p := p
+		if !submit(func(slot *c27Slot) {
+			text := p.Text()
+			prog, err := compiler.Compile(text)
+			if err != nil {
+				return
+			}
+			h := &c27History{group: "G", text: text}
+			forEachEnv(p, func(env *gen.Env) {
+				mk := envStore(env)
+				res := runMachine(prog, env.Vars, vmStore{mk()})
+				if res.Panic != nil {
+					return // reported by the first pass
+				}
+				class, out := c27MachineOutcome(&res)
+				h.in = append(h.in, c27HistInput{vars: env.Vars, mk: mk, desc: map[string]any{"balances": balString(env.Bal), "metadata": env.Meta}, class: class, out: out, stackLeft: res.StackLeft, failP: res.FailP})
+			})
+			runHistory(slot, h, c27HistFull)
+		}) {
+			okH = false
+		}
+	}
+	if okH && !r.Expired() {
+		groupsDone = append(groupsDone, "H:full-product")
 	}
 
 	close(tasks)
@@ -589,13 +1105,25 @@ func c27() int {
 			r.EngineError("vacuous: no runtime error was ever returned (the nil-result-on-error oracle never applied)")
 		case st.ranOK.Load() == 0:
 			r.EngineError("vacuous: no run succeeded")
+		case st.histPrograms.Load() == 0 || st.histSteps.Load() == 0:
+			r.EngineError("vacuous: no history was run on a cached runtime")
+		case st.histCacheHits.Load() == 0:
+			r.EngineError("vacuous: CachedParser never handed the runtime of an earlier execution back (no execution ever ran on a runtime that had run before)")
+		case st.histCacheMisses.Load() != 0:
+			r.EngineError(fmt.Sprintf("vacuous: CachedParser handed a different runtime in the middle of a history %d times (the executions of a history must share one runtime)", st.histCacheMisses.Load()))
+		case st.histFailThenOK.Load() == 0 || st.histOKThenFail.Load() == 0:
+			r.EngineError(fmt.Sprintf("vacuous: histories never ran a failing input right before a succeeding one (%d) or a succeeding one right before a failing one (%d)", st.histFailThenOK.Load(), st.histOKThenFail.Load()))
+		case st.histMidStmtFailThenOK.Load() == 0:
+			r.EngineError("vacuous: no history ran a succeeding input right after an execution that failed in the middle of a statement (values left on the VM stack): the failing inputs all die on an empty stack")
+		case len(st.histFirstClass.Map()) < 3:
+			r.EngineError(fmt.Sprintf("vacuous: the failing inputs that precede a succeeding one have fewer than 3 error classes: %v", st.histFirstClass.Map()))
 		}
 	}
 	cov := ev.Coverage{
 		"evaluations":         st.cases.Load(),
 		"distinct_nontrivial": st.distinctN.Load(),
-		"rule": fmt.Sprintf("G: %s x every input (one case for a program the compiler rejects); M: every single-token delete/duplicate/replace(by each of %d menu tokens) of %d seed programs, compiled mutants x %d uniform balances with default variable values; B: all %d-letter-alphabet byte strings of length 0..3; V: every seed x every declared variable x %d adversarial strings + %d adversarial JSON values (through vm.ScriptV1.ToCore), missing / extraneous / no variables; S: every seed x extreme balances (+-2^64, +-10^30, +-1), failing or empty store answers, missing and ill-typed metadata; distinct_nontrivial = distinct program texts that compiled AND ran to completion without error at least once",
-			gDesc, len(c27TokenMenu), len(c27Seeds), len(uniforms), len(c27Alphabet), len(c27AdvStrings), len(c27AdvJSON)),
+		"rule": fmt.Sprintf("G: %s x every input (one case for a program the compiler rejects); M: every single-token delete/duplicate/replace(by each of %d menu tokens) of %d seed programs, compiled mutants x %d uniform balances with default variable values; B: all %d-letter-alphabet byte strings of length 0..3; V: every seed x every declared variable x %d adversarial strings + %d adversarial JSON values (through vm.ScriptV1.ToCore), missing / extraneous / no variables; S: every seed x extreme balances (+-2^64, +-10^30, +-1), failing or empty store answers, missing and ill-typed metadata; H (histories): for every program of G, every compiled mutant of M, every compiled string of B and every seed (inputs of seed+V+S), programs with `print` excepted: all its inputs as ONE sequential history on the NumscriptRuntime that NewCachedNumscriptParser(NewDefaultNumscriptParser(), MaxCount 1024).Parse(text) returns (Parse before every execution: first a miss, then hits on the same runtime object) = every input once in enumeration order, then a b a for every ordered (input a failing on a fresh runtime, input b succeeding on a fresh runtime) pair, i.e. every (failing, succeeding) and (succeeding, failing) pair of inputs back to back — G programs in two passes: with the single-run cases of the program, the chain and the REDUCED product {first failing input of every fail point (error stage:kind, instruction pointer, stack depth at the error)} x {every succeeding input} and {every failing input} x {first succeeding input}, both orders; after all the other groups (groups_fully_covered: H:chain+reduced-product, then H:full-product), the remaining pairs of the FULL product for every G program with at most %d inputs (at most 2 balance-relevant accounts and one two-valued variable; a program with 3 such accounts has up to 432 inputs and 46 000 pairs and keeps the reduced product); each execution must answer what a fresh runtime answers (no panic, same postings and metadata, same error stage:kind); a history stops at its first divergence; distinct_nontrivial = distinct program texts that compiled AND ran to completion without error at least once",
+			gDesc, len(c27TokenMenu), len(c27Seeds), len(uniforms), len(c27Alphabet), len(c27AdvStrings), len(c27AdvJSON), histCap),
 		"samples":                       samples.List(),
 		"exhaustive":                    exhaustive.Load(),
 		"groups_fully_covered":          groupsDone,
@@ -607,11 +1135,32 @@ func c27() int {
 		"run_error_kinds":               st.errKinds.Map(),
 		"adapter_result_checks":         st.adapterChecks.Load(),
 		"traces_validated_against_impl": st.cases.Load(),
+		"histories": map[string]any{
+			"programs_with_a_history":                                    st.histPrograms.Load(),
+			"executions_on_a_cached_runtime":                             st.histSteps.Load(),
+			"executions_by_group":                                        st.histByGroup.Map(),
+			"cache_hits_same_runtime_object":                             st.histCacheHits.Load(),
+			"cache_handed_another_runtime":                               st.histCacheMisses.Load(),
+			"adjacent_pairs_fail_then_ok":                                st.histFailThenOK.Load(),
+			"adjacent_pairs_ok_then_fail":                                st.histOKThenFail.Load(),
+			"adjacent_pairs_ok_then_ok":                                  st.histOKThenOK.Load(),
+			"adjacent_pairs_fail_then_fail":                              st.histFailThenFail.Load(),
+			"adjacent_pairs_same_input_twice":                            st.histSameInputTwice.Load(),
+			"fail_then_ok_where_the_failure_left_values_on_the_vm_stack": st.histMidStmtFailThenOK.Load(),
+			"fail_x_ok_pairs_by_error_class_of_the_failing_input":        st.histFirstClass.Map(),
+			"programs_with_the_full_fail_x_ok_product":                   st.histFull.Load(),
+			"programs_with_the_reduced_product":                          st.histReduced.Load(),
+			"full_product_for_G_programs_with_at_most_inputs":            histCap,
+			"reduced_failing_inputs_run_around_the_first_succeeding_one": st.histAroundFirstOK.Load(),
+		},
 	}
 	return r.Finish(cov, []string{
 		"`arbitrary byte strings` is covered as all strings of length <= 3 over a 20-byte alphabet plus token-level mutants; longer random strings are not enumerated",
 		"hang = a single case not returning within 60 s, observed by a watchdog over the workers' current case (the VM has no loops; this guards the ANTLR parser)",
 		"programs containing `print` skip the adapter path only (it would print on stdout); they still run on the machine directly",
+		"H: the reference answer of an input is its direct machine run on a new vm.Machine (what a fresh adapter does); before a divergence is reported the input is run again on a fresh DefaultNumscriptParser runtime, and a divergence that the fresh adapter shares is reported as adapter-and-machine-disagree instead",
+		"H: a history runs in one goroutine with one CachedParser per worker (production shares one per process; a shared one would let another worker's programs evict the runtime mid-history); goroutines are not pinned to a P, a runtime that recycles objects through a per-P sync.Pool may therefore miss now and then: every failing input is re-executed before each succeeding input, so each (failing, succeeding) pair is an independent occasion",
+		"H: every compiled text with at least one input has a history (G, M, B, seeds); a program with a single input runs it twice",
 		"variables reach the machine as map[string]string (SetVarsFromJSON); non-string JSON values are first converted by vm.ScriptV1.ToCore as on the API path",
 	})
 }
